@@ -394,16 +394,16 @@ def expectation(m, op):
         e["splits"] = "superset"
         e["paths"] = False  # new edges of length eps lengthen paths by construction
     elif k == "json":
-        # to_rich_dict writes its newick without escaping names
-        if any(ch in RESERVED - {"'", "_"} for x in names if x is not None for ch in x) or any(
-            (x or "").startswith("'") for x in names
-        ):
-            e["cls"] = "a name needs newick quoting"
         named = [x for x in names[1:] if x is not None]
         if len(set(named)) != len(named):
             e["cls"] = "duplicate node names"
         if any(x is None for x in names[1:]):
             e["cls"] = "node with name None"  # edge attributes are keyed by node name
+        # to_rich_dict writes its newick without escaping names: the parse fails before anything else matters
+        if any(ch in RESERVED - {"'", "_"} for x in names if x is not None for ch in x) or any(
+            (x or "").startswith("'") for x in names
+        ):
+            e["cls"] = "a name needs newick quoting"
     if k in ("newick", "newick_nolen", "reparse") and any((x or "").startswith("'") for x in names):
         e["cls"] = "a name starts with a single quote"
     elif k == "scale":
